@@ -741,7 +741,9 @@ func TestC06(t *testing.T) {
 			nr := rapid.IntRange(1, 3).Draw(rt, "nrows")
 			for i := 0; i < nr; i++ {
 				k := fmt.Sprintf("k%d", i)
-				switch rapid.IntRange(0, 3).Draw(rt, "rk") {
+				switch rapid.IntRange(0, 4).Draw(rt, "rk") {
+				case 4:
+					rows = append(rows, row{k, []string{"[self-hosted, linux]", "[self-hosted, x64]"}, "labels"})
 				case 0:
 					rows = append(rows, row{k, []string{"a", "b"}, "str"})
 				case 1:
@@ -750,6 +752,13 @@ func TestC06(t *testing.T) {
 					rows = append(rows, row{k, []string{"{p: 1, q: x}", "{p: 2, q: y}"}, "obj"})
 				default:
 					rows = append(rows, row{k, []string{"[1, 2]", "[3]"}, "arr"})
+				}
+			}
+			// a row of label lists may be what runs-on takes its labels from
+			runsOn := "ubuntu-latest"
+			for _, rw := range rows {
+				if rw.kind == "labels" && rapid.Bool().Draw(rt, "runsonfrommatrix") {
+					runsOn = "${{ matrix." + rw.key + " }}"
 				}
 			}
 			hasInc := rapid.Bool().Draw(rt, "inc")
@@ -762,6 +771,8 @@ func TestC06(t *testing.T) {
 					uses = append(uses, "matrix."+rw.key+" > 1", "matrix."+rw.key)
 				case "obj":
 					uses = append(uses, "matrix."+rw.key+".p", "matrix."+rw.key+".q == 'x'", "toJSON(matrix."+rw.key+")")
+				case "labels":
+					uses = append(uses, "matrix."+rw.key+"[0]", "join(matrix."+rw.key+", ',')", "contains(matrix."+rw.key+", 'linux')")
 				case "arr":
 					uses = append(uses, "matrix."+rw.key+"[0]", "join(matrix."+rw.key+", ',')", "contains(matrix."+rw.key+", 1)")
 				}
@@ -774,7 +785,7 @@ func TestC06(t *testing.T) {
 			for i := 0; i < nuse; i++ {
 				chosen = append(chosen, rapid.SampledFrom(uses).Draw(rt, "use"))
 			}
-			mode := rapid.SampledFrom([]string{"row", "include", "matrix", "row-element"}).Draw(rt, "mode")
+			mode := rapid.SampledFrom([]string{"row", "include", "matrix", "row-element", "nested-element"}).Draw(rt, "mode")
 			if mode == "include" && !hasInc {
 				mode = "row"
 			}
@@ -786,7 +797,7 @@ func TestC06(t *testing.T) {
 			}
 			render := func(loosen bool) string {
 				var b strings.Builder
-				b.WriteString("on:\n  workflow_dispatch:\n    inputs:\n      x:\n        type: string\njobs:\n  a:\n    runs-on: ubuntu-latest\n    strategy:\n")
+				b.WriteString("on:\n  workflow_dispatch:\n    inputs:\n      x:\n        type: string\njobs:\n  a:\n    runs-on: " + runsOn + "\n    strategy:\n")
 				if loosen && mode == "matrix" {
 					b.WriteString("      matrix: ${{ fromJSON(github.event.inputs.x) }}\n")
 				} else {
@@ -795,6 +806,10 @@ func TestC06(t *testing.T) {
 						switch {
 						case loosen && mode == "row" && i == target:
 							fmt.Fprintf(&b, "        %s: ${{ %s }}\n", rw.key, looseExpr)
+						case loosen && mode == "nested-element" && i == target && (rw.kind == "labels" || rw.kind == "arr"):
+							// an element inside one of the row's list values
+							inner := strings.TrimSuffix(rw.vals[0], "]") + ", '${{ fromJSON(github.event.inputs.x) }}']"
+							fmt.Fprintf(&b, "        %s: [%s, %s]\n", rw.key, inner, rw.vals[1])
 						case loosen && mode == "row-element" && i == target:
 							fmt.Fprintf(&b, "        %s: [%s, '${{ fromJSON(github.event.inputs.x) }}']\n", rw.key, rw.vals[0])
 						default:
